@@ -232,14 +232,18 @@ func (p *Processor) ChargingDataUpdate(
 	ue.CULock.Lock()
 	defer ue.CULock.Unlock()
 
+	// the session must exist before any credit control is performed for it
+	cdr, ok := ue.Cdr[chargingSessionId]
+	if !ok || cdr == nil {
+		logger.ChargingdataPostLog.Errorf("CHFUe[%s]: charging session %s not found", ueId, chargingSessionId)
+		problemDetails := &models.ProblemDetails{
+			Status: http.StatusNotFound,
+		}
+		return nil, problemDetails
+	}
+
 	// Online charging: Rate, Account, Reservation
 	responseBody, partialRecord := p.BuildConvergedChargingDataUpdateResopone(chargingData)
-
-	cdr := ue.Cdr[chargingSessionId]
-
-	if len(ue.Records) > 1 {
-		cdr = ue.Records[len(ue.Records)-1]
-	}
 
 	cdrBytes, errCdrBer := asn.BerMarshalWithParams(&cdr, "explicit,choice")
 	if errCdrBer != nil {
@@ -280,6 +284,8 @@ func (p *Processor) ChargingDataUpdate(
 		newRecord.ChargingFunctionRecord.ListOfMultipleUnitUsage = []cdrType.MultipleUnitUsage{}
 		cdr = newRecord
 		ue.Records = append(ue.Records, cdr)
+		// the session continues in the new record
+		ue.Cdr[chargingSessionId] = cdr
 	}
 
 	err := p.UpdateCDR(cdr, chargingData)
@@ -350,9 +356,17 @@ func (p *Processor) ChargingDataRelease(
 	ue.CULock.Lock()
 	defer ue.CULock.Unlock()
 
-	sessionChargingReservation(chargingData)
+	// the session must exist before any credit control is performed for it
+	cdr, ok := ue.Cdr[chargingSessionId]
+	if !ok || cdr == nil {
+		logger.ChargingdataPostLog.Errorf("CHFUe[%s]: charging session %s not found", ueId, chargingSessionId)
+		problemDetails := &models.ProblemDetails{
+			Status: http.StatusNotFound,
+		}
+		return problemDetails
+	}
 
-	cdr := ue.Cdr[chargingSessionId]
+	sessionChargingReservation(chargingData)
 
 	err := p.UpdateCDR(cdr, chargingData)
 	if err != nil {
